@@ -112,6 +112,10 @@ def _cards(nfs, with_masses=False):
             zi, zj = z3.Real("mu%d" % i), z3.Real("mu%d" % j)
             S.assume_z3((zi < zj) == (zi * zi < zj * zj))
             S.assume_z3((zi == zj) == (zi * zi == zj * zj))
+    for i in range(len(mus)):
+        for j in range(i + 1, len(mus)):
+            if nfs[i] == nfs[j]:
+                assume(mus[i] - mus[j], "!=0")  # evolution points are distinct (they are the keys of the EKO)
     op.mugrid = [(mu, nf) for mu, nf in zip(mus, nfs)]
     op.init = (1.65, 4)
     return th, op, mus
@@ -758,7 +762,7 @@ def main():
     chk.explanation = ("Partial claim: decided are the info-file / block logic of evolve_pdfs (which grids, ranges, members, flavours and alpha_s knots are written, "
                        "and with which arguments the alpha_s provider is built) by symbolic execution of the real functions on symbolic cards. Not decided: the %.8e/%.6e text "
                        "round trip of dump_blocks/load, YAML layout of the info file, LHAPDF parsing, the numerical alpha_s values themselves, QMin/QMax rounding to 4 digits.")
-    chk.bounds = ["mugrid: 1-3 points over nf in {4,5} (quick: 6 listing patterns, thorough: all 14 of length <= 3), scales symbolic > 0 in arbitrary listing order",
+    chk.bounds = ["mugrid: 1-3 points over nf in {4,5} (quick: 6 listing patterns, thorough: all 14 of length <= 3), scales symbolic in (1, 10^4) GeV in arbitrary listing order, distinct within one nf",
                   "x grids: card grid 2 points, explicit target grid 2-3 points, symbolic increasing; 1-2 members; EKO evolution points = card evolution points (listing order shuffled)",
                   "alpha_s differential: masses, matching ratios, xif symbolic > 0 (masses increasing); schemes POLE, MSBAR with m(m) given, MSBAR with masses at another scale; "
                   "scale variation None / exponentiated / expanded; %s" % ("all 8 evolution methods" if thorough else "3 evolution methods")]
